@@ -179,6 +179,13 @@ def setup (f : Flags) (ds : List Directive) : Res (Partition × List Day) :=
   | Outcome.panic s => Res.panic s
   | Outcome.ok part => Res.ok (part, (b.ensureDays part.endDates).build)
 
+/-- the days `Perf` looks at: inside the span of the partition and — since the repair `32cd4f9` — not before the first
+reported period (`--last n` drops the earlier periods but not the span): `part.Contains(d) && !d.Before(starts[0])` -/
+def perfSpan (part : Partition) : Period :=
+  match part.startDates with
+  | [] => part.span
+  | s :: _ => ⟨if part.span.start < s then s else part.span.start, part.span.stop⟩
+
 /-- `knut portfolio returns`: one `(period end, return)` per printed line; `none` is printed as `NaN`/`±Inf` -/
 def returns (f : Flags) (ds : List Directive) : Res (List (Int × Option Rat)) :=
   match setup f ds with
@@ -187,14 +194,14 @@ def returns (f : Flags) (ds : List Directive) : Res (List (Int × Option Rat)) :
   | .ok (part, days) =>
     match perfFrom f.cfg {} days with
     | .error _ => .error "processing"
-    | .ok perfs => .ok (perfLines part.span part.endDates (some 1) perfs)
+    | .ok perfs => .ok (perfLines (perfSpan part) part.endDates (some 1) perfs)
 
 /-- the ill-conditioning flags of the lines of `returns` -/
 def returnsCond (f : Flags) (ds : List Directive) : List Bool :=
   match setup f ds with
   | .ok (part, days) =>
     match perfFrom f.cfg {} days with
-    | .ok perfs => condLines part.span part.endDates false perfs
+    | .ok perfs => condLines (perfSpan part) part.endDates false perfs
     | .error _ => []
   | _ => []
 
